@@ -221,18 +221,7 @@ func checkC04(c *ctx) {
 	// batches with 127, 128, 129 and 300 distinct field names (the field count and every field id
 	// cross the one-byte varint)
 	for _, nf := range []int{127, 128, 129, 300} {
-		var b zh.Batch
-		for d := 0; d < 2; d++ {
-			doc := zh.Doc{Fields: []zh.Field{zh.IDField(fmt.Sprintf("f%03d", d))}}
-			for f := 0; f < nf-1; f++ {
-				if (f+d)%3 == 0 && d == 1 {
-					continue
-				}
-				doc.Fields = append(doc.Fields, zh.Field{Name: fmt.Sprintf("n%03d", f), Len: 1, DV: f%7 == 0, Stored: f%5 == 0, Typ: 't', Val: []byte{byte('a' + f%26)},
-					Toks: []zh.Tok{{Term: fmt.Sprintf("t%d", f%4), Freq: 1}}})
-			}
-			b = append(b, doc)
-		}
+		b := wideBatch(nf, "f", false)
 		sb, _, spec, err := buildObs(c, b, 1026)
 		c.Case(fmt.Sprintf("fields-%d", nf), true)
 		c.Count("many_field_batches")
